@@ -47,6 +47,8 @@ func c13Values() []c13Val {
 		{"huge", 1e308}, {"tiny", 5e-324}, {"f1e18", 1e18}, {"f32", float32(1.5)}, {"str-empty", ""}, {"str-abc", "abc"}, {"str-12", "12"}, {"str-beyond-int64", "99999999999999999999"}, {"bytes-beyond-int64", []byte("-99999999999999999999")}, {"str-1e5", "1e5"}, {"str--0.5", "-0.5"}, {"str-5", "5"}, {"pstr-empty", &es},
 		{"bytes", []byte("b<\"")}, {"pbytes", &bs}, {"true", true}, {"false", false}, {"time", time.Unix(1600000000, 5)}, {"ptime", func() *time.Time { t := time.Unix(0, 0); return &t }()},
 		{"nilptr", np}, {"nilptr-string", (*string)(nil)}, {"nilptr-float64", (*float64)(nil)}, {"nilptr-bytes", (*[]byte)(nil)}, {"nilptr-bool", (*bool)(nil)}, {"nilptr-time", (*time.Time)(nil)}, {"nilptr-uint32", (*uint32)(nil)}, {"nilptr-int64", (*int64)(nil)}, {"strs", []string{"a", "b"}}, {"map", map[string]any{"k": 1}}, {"struct", struct{ A int }{1}}, {"user", (UserSpec{Id: "1", HasFinance: true}).Build()},
+		// values registered WITHOUT an inspector (`ctx.Set(name, v, nil)`; repair: every read called the nil inspector)
+		{"noins-int", 7}, {"noins-str", "s"}, {"noins-strs", []any{"a"}}, {"noins-nil", nil},
 	}...)
 }
 
@@ -67,6 +69,10 @@ var c13Helpers = []string{"lenEq0", "lenGt0", "lenGtq0"}
 func c13Setup(ctx *dyntpl.Ctx, names []string, vals []c13Val) {
 	for i, n := range names {
 		v := vals[i].V
+		if strings.HasPrefix(vals[i].Name, "noins-") {
+			ctx.Set(n, v, nil)
+			continue
+		}
 		switch x := v.(type) {
 		case []string:
 			ctx.Set(n, x, inspector.StringsInspector{})
